@@ -6,3 +6,7 @@ import BalmProofs.Props.C08
 #print axioms Balm.Impl.attractors_sound
 #print axioms Balm.Impl.attractors_complete
 #print axioms Balm.Impl.mem_ownAttrs
+#print axioms Balm.Impl.candidates_complete
+#print axioms Balm.Impl.greedyLoop_valid
+#print axioms Balm.Impl.regenLoop_small
+#print axioms Balm.Impl.solverOK_take
